@@ -226,6 +226,24 @@ def run_impl_only(harness_bin, ops, tag):
         shutil.rmtree(d, ignore_errors=True)
 
 
+def run_model_only(ops, tag):
+    """Evaluates operations on the Lean model driver alone."""
+    d = os.path.join(WORK, "%s-m-%d" % (tag, os.getpid()))
+    os.makedirs(d, exist_ok=True)
+    try:
+        op = os.path.join(d, "ops.txt")
+        with open(op, "w") as f:
+            f.write("\n".join(ops) + "\n")
+        mo = os.path.join(d, "model.out")
+        run_evaluator([DRIVER_BIN], op, mo)
+        ml = open(mo, errors="replace").read().split("\n")
+        if ml and ml[-1] == "":
+            ml.pop()
+        return ml
+    finally:
+        shutil.rmtree(d, ignore_errors=True)
+
+
 def fields(line):
     """Parses a canonical result line into (head, {key: value}). head is 'ok', 'err <Variant>',
     'panic', ..."""
